@@ -175,7 +175,11 @@ func genRounds(t *rapid.T, c *Case) {
 
 func genSmall(t *rapid.T) Case {
 	var c Case
-	c.N, c.Clauses = gen.SmallCNF(t, gen.CNFOpts{MinN: 1, MaxN: 10, MaxRatio: 3, MaxLen: 4, AllowDup: true, AllowUnit: true, UnusedVarSlack: true})
+	if gen.Chance(t, 1, 4, "chain") {
+		c.N, c.Clauses = gen.PropagationChain(t, 2, 10) // many parse-time facts for Assume to respect
+	} else {
+		c.N, c.Clauses = gen.SmallCNF(t, gen.CNFOpts{MinN: 1, MaxN: 10, MaxRatio: 3, MaxLen: 4, AllowDup: true, AllowUnit: true, UnusedVarSlack: true})
+	}
 	c.SolveFirst = gen.Chance(t, 1, 4, "solveFirst")
 	genRounds(t, &c)
 	return c
